@@ -190,8 +190,23 @@ def gen_spec(ctx, r):
                 e = unhex(hosts[h]["err"])
                 hosts[h] = {"out": hexs(o), "err": hexs(e), "plan": gen_plan(rng, o, e, style)}
             hosts[h]["plan"].append("%s %d" % (rng.choice("UX"), rng.choice([3000, 10000, 30000, 60000])))
+    timeout = 0
+    if r % 12 == 7 and 2 <= k <= 12:
+        # Hosts that are given up on: -u 1, and 1..2 hosts stop in the middle of their plan and hang.  Everything
+        # they wrote before must be relayed (incl. an unterminated tail), nothing else (C05.abandoned_stream_...).
+        # The other hosts write without pauses, so that they are done long before the timeout.
+        timeout = 1
+        for h in hosts:
+            hosts[h]["plan"] = [" ".join(l.split()[:2] + ["0"]) for l in hosts[h]["plan"] if l[0] in "oe"]
+        for h in rng.sample(list(hosts), rng.randrange(1, 3)):
+            plan = hosts[h]["plan"]
+            cut = rng.randrange(0, len(plan) + 1)
+            wo = sum(int(l.split()[1]) for l in plan[:cut] if l[0] == "o")
+            we = sum(int(l.split()[1]) for l in plan[:cut] if l[0] == "e")
+            hosts[h]["plan"] = plan[:cut] + ["o 0 30000000"]
+            hosts[h]["written"] = [wo, we]
     return {"kind": "real-run", "targets": [t.decode() for t in targets], "labels": labels, "K": optK,
-            "fanout": fanout, "write_style": style, "hosts": hosts,
+            "fanout": (64 if timeout else fanout), "write_style": style, "hosts": hosts, "timeout": timeout,
             # pdsh's stdout/stderr are a pipe or a file: fully buffered stdio either way, different flush points
             "capture": rng.choice(["pipe", "file"])}
 
@@ -203,9 +218,12 @@ def exec_spec(ctx, prop, spec, pdsh, writer, d, real):
     targets = [t.encode() for t in spec["targets"]]
     labels, optK = spec["labels"], spec["K"]
     payloads = {}
+    hung = []
     for name, hs in spec["hosts"].items():
         o, e = unhex(hs["out"]), unhex(hs["err"])
         payloads[name.encode()] = (o, e)
+        if "written" in hs:
+            hung.append(name)
         open(os.path.join(d, name + ".out"), "wb").write(o)
         open(os.path.join(d, name + ".err"), "wb").write(e)
         open(os.path.join(d, name + ".plan"), "w").write("\n".join(hs["plan"]) + "\n")
@@ -214,6 +232,8 @@ def exec_spec(ctx, prop, spec, pdsh, writer, d, real):
         cmd.append("-N")
     if optK:
         cmd.append("-K")
+    if spec.get("timeout"):
+        cmd += ["-u", str(spec["timeout"])]
     # the command is a private copy of the writer (the U/X plan ops rename / chmod it)
     mycmd = os.path.join(d, "cmd")
     import shutil
@@ -224,6 +244,14 @@ def exec_spec(ctx, prop, spec, pdsh, writer, d, real):
     # targets whose command was never started (execvp failed in the transport's child)
     notrun = [t for t in targets if not os.path.exists(os.path.join(d, t.decode() + ".ran"))]
     real["exec_failed_hosts"] = real.get("exec_failed_hosts", 0) + len(notrun)
+    if hung:
+        real["runs_with_command_timeout"] = real.get("runs_with_command_timeout", 0) + 1
+        real["abandoned_hosts"] = real.get("abandoned_hosts", 0) + len(hung)
+        for name in hung:
+            # a host that was given up on: what it wrote before it hung is what must be relayed
+            wo, we = spec["hosts"][name]["written"]
+            o, e = payloads[name.encode()]
+            payloads[name.encode()] = (o[:wo], e[:we])
     real["runs_with_exec_failure"] = real.get("runs_with_exec_failure", 0) + (1 if notrun else 0)
     real["capture_" + spec.get("capture", "pipe")] = real.get("capture_" + spec.get("capture", "pipe"), 0) + 1
     real["runs"] += 1
@@ -239,6 +267,11 @@ def exec_spec(ctx, prop, spec, pdsh, writer, d, real):
         pass
     c = C()
     c.targets, c.optK, c.labels = targets, optK, labels
+    if hung and not notrun:
+        import re
+        # pdsh's own diagnostics: "pdsh@host: h: command timeout", "... killed by signal 15", and the exec
+        # module's "sending signal 15 to h [cmd] pid N"
+        se = re.sub(b"pdsh@[^\n]*\n|sending signal [0-9]+ to [^\n]*\n", b"", se)
     if notrun:
         # pdsh's own diagnostics about such a target go to stderr: the child's "execvp ... failed" line (relayed
         # under the target's label) and "pdsh@host: target: cmd exited with exit code 255".  The properties say
@@ -290,10 +323,33 @@ def real_tools(ctx):
     return os.path.join(copy, "src/pdsh/pdsh"), writer
 
 
+def beyond_domain_probe(ctx, pdsh, writer, dist):
+    """NOT judged (outside the stated domain of C05): what the real binary does with a line of 200 KiB and with
+    a NUL byte -- recorded in the evidence next to the theorems C05.beyond_domain_drops_head / nul_cuts_record"""
+    d = os.path.join(ctx.scratch, "beyond")
+    os.makedirs(d)
+    long_line = b"A" * 1000 + b"B" * (204800 - 1001) + b"\n"
+    out = {}
+    for name, payload in (("long", long_line + b"next\n"), ("nul", b"ab\0cd\nef\n")):
+        open(os.path.join(d, name + ".out"), "wb").write(payload)
+        open(os.path.join(d, name + ".err"), "wb").write(b"")
+        open(os.path.join(d, name + ".plan"), "w").write("o %d 0\n" % len(payload))
+    rc, so, se = run_group([pdsh, "-R", "exec", "-w", "long", writer, d, "%h"], 60)
+    first = so.split(b"\n")[0]
+    out["line_of_204800_bytes"] = {"relayed_line_bytes": max(0, len(first) + 1 - len(b"long: ")),
+                                   "head_bytes_A_relayed": first.count(b"A"), "pdsh_exit": rc,
+                                   "diagnostic_on_stderr": bool(se.strip())}
+    rc, so, se = run_group([pdsh, "-R", "exec", "-w", "nul", writer, d, "%h"], 60)
+    out["ab_NUL_cd_newline_ef_newline"] = {"stdout": so.decode("latin-1"), "pdsh_exit": rc}
+    dist["beyond_domain"] = out
+    ctx.log("beyond the domain (not judged): %s" % out)
+
+
 def run_real(ctx, prop, cov, dist):
     pdsh, writer = real_tools(ctx)
     if not pdsh:
         return
+    beyond_domain_probe(ctx, pdsh, writer, dist)
     nruns = 24 if ctx.quick() else 220
     real = {"runs": 0, "hosts": 0, "bytes": 0, "tail_split_raced": 0}
     for r in range(nruns):
